@@ -118,6 +118,19 @@ Theorem C11_zero_addon_project : forall a : addon_in,
 Proof. exact zero_addon_project_cashflow. Qed.
 Print Assumptions C11_zero_addon_project.
 
+(* ... so the project's NPV (every discount rate) and its cumulative cash flow (every year) are unchanged as well *)
+Theorem C11_zero_addon_npv : forall (a : addon_in) (r : Q),
+  a_capex a == 0 -> a_opex a == 0 -> a_egain a == 0 -> a_hgain a == 0 -> a_profit a == 0 ->
+  npv r (addon_project_cashflow a) == npv r (base_project_cashflow a).
+Proof. exact zero_addon_npv. Qed.
+Print Assumptions C11_zero_addon_npv.
+
+Theorem C11_zero_addon_cumulative : forall a : addon_in,
+  a_capex a == 0 -> a_opex a == 0 -> a_egain a == 0 -> a_hgain a == 0 -> a_profit a == 0 ->
+  Forall2 Qeq (running (addon_project_cashflow a)) (running (base_project_cashflow a)).
+Proof. exact zero_addon_cumulative. Qed.
+Print Assumptions C11_zero_addon_cumulative.
+
 (* ---- non-vacuity ---- *)
 Example ex_scale : let c := Verif.Props.C01.ex1 in
   let '(a, b, _) := lcoe_exec c in let '(a3, b3, _) := lcoe_exec (scale_costs 3 c) in a3 == 3 * a /\ b3 == 3 * b /\ 0 < a.
